@@ -14,7 +14,11 @@ PROP = dict(
           "pivot at every step), affine, rank deficient (determinant identities only). Checked for 3x3 and 4x4: det() == elimination determinant, "
           "det(M^T) == det(M), det(triangular) == product, det(AB) == det(A)det(B) (harness product; library product for 4x4 and for affine 3x3, "
           "which is what Matrix3::operator* is documented for), M*inverse(M) == I and inverse(M)*M == I (harness product; library product under the "
-          "same restriction), inverse(inverse(M)) == M. Systems: n = 1..12 (biased to 12), 1..4 right-hand-side columns incl. the identity: "
+          "same restriction), inverse(inverse(M)) == M; the compound and self-aliased forms against the out-of-place value computed by the harness: "
+          "M *= N, M *= M and M *= (reference to M) == M*M with det == det(M)^2, (A *= B) *= B, M = M*M, B = A*B, M = M.transposed(), M = M.inverse(), "
+          "M *= M.inverse(), M = M + M, M - M, M *= M(1,2) (scalar taken from the matrix itself), t*M, M*t (Matrix3: the forms it offers; "
+          "M = M*M on affine M only); Matrix_: A += A, -= , A -= A, *= own element, negate, copy(self), swapRows, A = A*A, A = A.transposed(), "
+          "A = A.transposed(A), A = A.inverse(), solve(A,A) == I, b = solve(A,b), A = solve(A,b) (all on objects owning their storage). Systems: n = 1..12 (biased to 12), 1..4 right-hand-side columns incl. the identity: "
           "A*solve(A,b) == b, Matrix_::inverse both-sided, no division by a zero pivot; over-determined (n+1..n+4) x n: A^T A x == A^T b; singular "
           "draws are skipped and counted as discarded. Quaternions with w^2+x^2+y^2+z^2 == 1 in the field (q^2/|q|^2 of a random q, or given x,y,z "
           "with w a field square root): matrix() is orthogonal, det 1, affine part 0, inverse == transpose, and maps v to q v q* (independent Hamilton "
